@@ -83,6 +83,8 @@ fn g2_bytes(s: &str) -> String {
 struct ProofOut {
     proof: Value,
     ctape: Vec<String>,
+    /// set when the number / freshness of the pairing-side draws is not the prescribed one
+    draws_note: Option<String>,
 }
 
 fn build_proof(rd: &RevDef, h: &Holder, req: &ReqSpec, reg: Option<&RevocationRegistry>, nonce: &Nonce) -> Result<ProofOut, String> {
@@ -96,8 +98,14 @@ fn build_proof(rd: &RevDef, h: &Holder, req: &ReqSpec, reg: Option<&RevocationRe
     let tape = vf::tape_take();
     r.map_err(e)?;
     let ctape: Vec<String> = tape.iter().filter(|t| t.0 == "random_mod_order").take(7).map(|t| t.2.clone()).collect();
+    // the pairing-side randomisers: 7 blinders of the c-list and 13 masks of the tau-list, each its own draw
+    let all: Vec<&String> = tape.iter().filter(|t| t.0 == "random_mod_order").map(|t| &t.2).collect();
+    let distinct: BTreeSet<&String> = all.iter().cloned().collect();
+    let draws_note = if reg.is_some() && (all.len() != 20 || distinct.len() != all.len()) {
+        Some(format!("add_sub_proof_request with a non-revocation part drew {} group-order randomisers ({} distinct), prescribed: 20 fresh ones (7 c-list blinders + 13 tau-list masks)", all.len(), distinct.len()))
+    } else { None };
     let proof = pb.finalize(nonce).map_err(e)?;
-    Ok(ProofOut { proof: jv(&proof), ctape })
+    Ok(ProofOut { proof: jv(&proof), ctape, draws_note })
 }
 
 fn verify_with(rd: &RevDef, req: &ReqSpec, proof: &Value, nonce: &Nonce, rc: Option<&RegCtx>, reg: Option<&RevocationRegistry>) -> Out<bool> {
@@ -354,6 +362,11 @@ fn gen_nr(thorough: bool, rng: &mut Rng) -> Result<(), String> {
             let p = build_proof(&rd, &holders[hi], &req, Some(&reg1), &nonce)?;
             let r = verify_with(&rd, &req, &p.proof, &nonce, Some(&rc), Some(&reg1));
             emit_case(&format!("nr/{}/valid-s1-h{}", run, hi), &rd, &rc, &req, &holders[hi], &p.proof, &p.ctape, &nonce, &valid1, &reg1, &r, true, "valid_current", None);
+            if let Some(note) = &p.draws_note {
+                emit(&json!({"id": format!("nr/{}/draws-h{}", run, hi), "op": "blind_oracles", "in": {}, "impl": {"oracles": [{"name": "fresh_randomness", "ok": false, "detail": note}]}, "class": {"kind": "nr_draws"}}));
+            } else {
+                emit(&json!({"id": format!("nr/{}/draws-h{}", run, hi), "op": "blind_oracles", "in": {}, "impl": {"oracles": []}, "class": {"kind": "nr_draws"}}));
+            }
             if hi == 0 {
                 // (g) altered x-list scalars and c-list entries
                 for f in ["rho", "r", "r_prime", "r_prime_prime", "r_prime_prime_prime", "o", "o_prime", "m", "m_prime", "t", "t_prime", "s", "c"] {
@@ -462,7 +475,10 @@ fn gen_nr(thorough: bool, rng: &mut Rng) -> Result<(), String> {
         //     a (valid, but unasked-for) part to the second sub-proof as a decoy: counting parts is not enough
         {
             let hs = [&holders[1], &holders[2]];
-            let (p, tapes) = build_multi(&rd, &hs, &req, &reg1, &[false, true], &nonce)?;
+            // neither sub-proof is built with a part (nothing of it is hashed); an old part is pasted in afterwards
+            let (mut p, tapes) = build_multi(&rd, &hs, &req, &reg1, &[false, false], &nonce)?;
+            let donor = build_proof(&rd, &holders[2], &req, Some(&reg1), &nonce)?;
+            p["proofs"][1]["non_revoc_proof"] = donor.proof["proofs"][0]["non_revoc_proof"].clone();
             let r = verify_first_registry_only(&rd, &req, &p, &nonce, &rc, &reg1);
             let mut creds = vec![];
             for (i, _h) in hs.iter().enumerate() {
